@@ -102,6 +102,26 @@ RTimeMulRights == {Opd(<<>>, ILit(n)) : n \in {0, 1, 2, -3, 60}} \cup
 RTimeCells == {Prog("recv", "rtime", l \o r.setup, <<Set("r1", op, r.e)>>) : l \in RTimeLefts, op \in {"=", "+=", "-="}, r \in RTimeAddRights} \cup
               {Prog("recv", "rtime", l \o r.setup, <<Set("r1", op, r.e)>>) : l \in RTimeLefts, op \in {"*=", "/="}, r \in RTimeMulRights}
 
+\* CROSS-TYPE arithmetic: INTEGER target x FLOAT operand, FLOAT target x INTEGER operand, RTIME x INTEGER / FLOAT, with
+\* fractional operands +-0.5, +-1.5, +-2.5 in every sign combination and integers beyond 2^53 (conversion order, see Eval.tla)
+XIntLefts == {<<Set("i1", "=", ILit(n))>> : n \in {10, -10, 0, 7, -7, 1}} \cup
+             { <<Set("i1", "=", ILit(1)), Set("i1", "<<=", ILit(53)), Set("i1", "+=", ILit(1))>>,       \* 2^53 + 1
+               <<Set("i1", "=", ILit(-1)), Set("i1", "<<=", ILit(53)), Set("i1", "-=", ILit(1))>> }     \* -(2^53 + 1)
+XFloatRights == {Opd(<<Set("f2", "=", FLit(n, 1))>>, Id("f2")) : n \in {1, -1, 3, -3, 5, -5, 0, 4}} \cup
+                {Opd(<<Set("f2", "=", FLit(n, 1))>>, Neg(Id("f2"))) : n \in {3, -5}}
+XIntCells == {Prog("recv", "int-x-float", l \o r.setup, <<Set("i1", op, r.e)>>)
+                : l \in XIntLefts, op \in {"=", "+=", "-=", "*=", "/=", "%="}, r \in XFloatRights}
+XFloatCells == {Prog("recv", "float-x-int", <<Set("f1", "=", FLit(l, 1))>> \o r.setup, <<Set("f1", op, r.e)>>)
+                  : l \in {5, -5, 1, -3, 0}, op \in FloatOps,
+                    r \in {Opd(<<>>, ILit(n)) : n \in {3, -3, 1, -1, 0}} \cup {Opd(<<Set("i2", "=", ILit(n))>>, Id("i2")) : n \in {3, -3, 1, -1, 0}}}
+XRTimeCells == {Prog("recv", "rtime-x", <<Set("r1", "=", RLit(l)), Set("i2", "=", ILit(n))>>, <<Set("r1", op, Id("i2"))>>)
+                  : l \in {1500, -2000, 90000}, op \in {"=", "+=", "-="}, n \in {0, 2, -3, 60}} \cup
+               {Prog("recv", "rtime-x", <<Set("r1", "=", RLit(l))>> \o r.setup, <<Set("r1", op, r.e)>>)
+                  : l \in {1500, -2000, 90000}, op \in {"*=", "/="},
+                    r \in {Opd(<<>>, FLit(n, 1)) : n \in {1, -1, 3, -3, 5, -5}} \cup {Opd(<<Set("f2", "=", FLit(n, 1))>>, Id("f2")) : n \in {1, -1, 3, -3, 5, -5}} \cup
+                          {Opd(<<Set("i2", "=", ILit(n))>>, Id("i2")) : n \in {2, -3}}}
+CrossCells == XIntCells \cup XFloatCells \cup XRTimeCells
+
 \* a prepared store on which conditions of every kind have a known value (computed by the evaluator, not assumed here)
 CondStore == << Set("b1", "=", BLit(TRUE)), Set("s1", "=", SLit(A)), Set("h1", "=", SLit(E)), Set("i1", "=", ILit(5)),
                 Set("f1", "=", FLit(3, 1)), Set("r1", "=", RLit(90000)) >>
@@ -153,7 +173,7 @@ StrCells ==
   {Prog(sc, "unset", l, <<Unset(h)>>) : sc \in Scopes, h \in HdrNames, l \in StrSetups("h1") \cup StrSetups("h2")} \cup
   {Prog("recv", "log", r.setup, <<Log(r.e)>>) : r \in StrRights}
 
-AllCells == IntCells \cup FloatCells \cup RTimeCells \cup BoolCells \cup StrCells
+AllCells == IntCells \cup FloatCells \cup RTimeCells \cup BoolCells \cup StrCells \cup CrossCells
 
 -----------------------------------------------------------------------------
 (* SHAPES *)
@@ -287,7 +307,8 @@ GSimple(u) ==
   CASE r <= 3  -> Set(GIntVar(u), Pick({"=", "+=", "-=", "*=", "|=", "&=", "^="}), GIntExp(u))
     [] r = 4   -> Set(GIntVar(u), Pick({"/=", "%="}), IF Chance(9, 10) THEN ILit(Pick({1, 2, 3, 7, -2})) ELSE GIntExp(u))
     [] r = 5   -> Set(GIntVar(u), Pick({"<<=", ">>=", "rol=", "ror="}), GShift(u))
-    [] r = 6   -> Set(GIntVar(u), "=", Id(GFltVar(u)))
+    [] r = 6   -> IF Chance(2, 3) THEN Set(GIntVar(u), Pick({"=", "+=", "-=", "*=", "/=", "%="}), IF Chance(4, 5) THEN Id(GFltVar(u)) ELSE Neg(Id(GFltVar(u))))
+                  ELSE Set(GRtVar(u), Pick({"=", "+=", "-="}), Id(GIntVar(u)))
     [] r = 7 \/ r = 8 -> Set(GFltVar(u), Pick({"=", "+=", "-=", "*="}), GFltExp(u))
     [] r = 9   -> Set(GFltVar(u), "/=", GDivisor(u))
     [] r = 10  -> Set(GRtVar(u), Pick({"=", "+=", "-="}), GRtExp(u))
@@ -325,7 +346,7 @@ GInitial(u) == << Set("i1", "=", GIntLit(u)), Set("i2", "=", GIntLit(u)), Set("f
 (* state machine *)
 \* cells and shapes are enumerated family by family, so that TLC's workers share the evaluation
 OpOf(p) == p.stmts[Len(p.stmts)].op
-CellKeys == {<<"int", op>> : op \in IntOps} \cup {<<"float", op>> : op \in FloatOps} \cup {<<"rtime", "">>, <<"bool", "">>, <<"int-from-float", "">>} \cup
+CellKeys == {<<"int", op>> : op \in IntOps} \cup {<<"float", op>> : op \in FloatOps} \cup {<<"rtime", "">>, <<"bool", "">>, <<"int-from-float", "">>, <<"int-x-float", "">>, <<"float-x-int", "">>, <<"rtime-x", "">>} \cup
             {<<"str-local", op>> : op \in {"=", "+="}} \cup {<<"str-header", sc>> : sc \in Scopes} \cup {<<"unset", "">>, <<"log", "">>}
 CellFam(key) ==
   CASE key[1] = "int"        -> {p \in IntCells : p.tag = "int" /\ OpOf(p) = key[2]}
